@@ -258,6 +258,72 @@ class UnpackToIndex(ast.NodeTransformer):
         return node
 
 
+class ExtractHelper(ast.NodeTransformer):
+    """x = f(...)  ->  x = _xh_N(free variables)  with a new module-level  def _xh_N(free variables): return f(...)
+    for every assignment of a call in a top-level function or method (undecorated, no closures involved)"""
+
+    def __init__(self, module_names):
+        self.k = 0
+        self.new = []
+        self.module_names = module_names
+
+    def visit_ClassDef(self, node):
+        node.body = [self.fn(n) if isinstance(n, ast.FunctionDef) else n for n in node.body]
+        return node
+
+    def visit_FunctionDef(self, node):
+        return self.fn(node)
+
+    def fn(self, node):
+        if node.decorator_list or any(isinstance(x, (ast.FunctionDef, ast.Lambda, ast.Global, ast.Nonlocal, ast.Yield, ast.YieldFrom)) for b in node.body for x in ast.walk(b)):
+            return node
+        local = {a.arg for a in node.args.posonlyargs + node.args.args + node.args.kwonlyargs}
+        if node.args.vararg:
+            local.add(node.args.vararg.arg)
+        if node.args.kwarg:
+            local.add(node.args.kwarg.arg)
+        for x in ast.walk(node):
+            if isinstance(x, ast.Name) and isinstance(x.ctx, ast.Store):
+                local.add(x.id)
+        self.local = local
+        self.generic_stmts(node)
+        return node
+
+    def generic_stmts(self, node):
+        for f in ("body", "orelse", "finalbody"):
+            b = getattr(node, f, None)
+            if isinstance(b, list):
+                for st in b:
+                    if isinstance(st, ast.Assign) and isinstance(st.value, ast.Call) and len(st.targets) == 1 and isinstance(st.targets[0], (ast.Name, ast.Tuple)):
+                        self.extract(st)
+                    elif isinstance(st, (ast.If, ast.For, ast.While, ast.Try, ast.With)):
+                        self.generic_stmts(st)
+        for h in getattr(node, "handlers", []):
+            self.generic_stmts(h)
+
+    def extract(self, st):
+        expr = st.value
+        if any(isinstance(x, (ast.Starred, ast.NamedExpr, ast.Await)) for x in ast.walk(expr)) or any(k.arg is None for x in ast.walk(expr) if isinstance(x, ast.Call) for k in x.keywords):
+            return
+        bound = set()
+        for x in ast.walk(expr):
+            if isinstance(x, ast.comprehension):
+                for y in ast.walk(x.target):
+                    if isinstance(y, ast.Name):
+                        bound.add(y.id)
+        free = []
+        for x in ast.walk(expr):
+            if isinstance(x, ast.Name) and isinstance(x.ctx, ast.Load) and x.id in self.local and x.id not in bound and x.id not in free:
+                free.append(x.id)
+        if any(n in bound for n in free):
+            return
+        self.k += 1
+        name = "_xh_%d" % self.k
+        self.new.append(ast.FunctionDef(name=name, args=ast.arguments(posonlyargs=[], args=[ast.arg(arg=n) for n in free], kwonlyargs=[], kw_defaults=[], defaults=[]),
+                                        body=[ast.Return(value=expr)], decorator_list=[], type_params=[]))
+        st.value = ast.Call(func=ast.Name(id=name, ctx=ast.Load()), args=[ast.Name(id=n, ctx=ast.Load()) for n in free], keywords=[])
+
+
 COMPOSED = ("keywordize", "rename", "commute", "invert-if", "yoda", "method-to-function", "else-after-return", "reverse-keywords", "fstring", "unpack-to-index")
 
 
@@ -295,6 +361,10 @@ def transformed(kind):
                 tree = UnpackToIndex().visit(tree)
             if k == "hoist":
                 tree = Hoist().visit(tree)
+            if k == "extract-helper":
+                xh = ExtractHelper(set())
+                tree = xh.visit(tree)
+                tree.body.extend(xh.new)
             if k == "keywordize":
                 parts = list(rel.with_suffix("").parts)
                 if parts[-1] == "__init__":
@@ -307,7 +377,7 @@ def transformed(kind):
 
 def main():
     bad = 0
-    for kind in ("format", "rename", "commute", "keywordize", "hoist", "invert-if", "yoda", "method-to-function", "else-after-return", "reverse-keywords", "fstring", "unpack-to-index", "composed"):
+    for kind in ("format", "rename", "commute", "keywordize", "hoist", "invert-if", "yoda", "method-to-function", "else-after-return", "reverse-keywords", "fstring", "unpack-to-index", "composed", "extract-helper"):
         overlay = transformed(kind)
         for src in overlay.values():
             compile(src, "<variant>", "exec")
